@@ -242,7 +242,7 @@ deriving Repr, DecidableEq
 def isLetterC (c : Char) : Bool := ('a' ≤ c && c ≤ 'z') || ('A' ≤ c && c ≤ 'Z')
 def isDigitC (c : Char) : Bool := '0' ≤ c && c ≤ '9'
 def isIdC (c : Char) : Bool := isLetterC c || isDigitC c || c = '-' || c = '_'
-def isSpaceC (c : Char) : Bool := c = ' ' || c = '\t' || c = '\n' || c = '\r' || c.toNat = 11 || c.toNat = 12
+def isSpaceC (c : Char) : Bool := c = ' ' || c = '\t' || c = '\n' || c = '\r' || c = '\x0b' || c = '\x0c'
 
 /-- `s` minus the prefix `kw`, if `kw` is a prefix -/
 def dropPrefix? : List Char → List Char → Option (List Char)
@@ -250,77 +250,98 @@ def dropPrefix? : List Char → List Char → Option (List Char)
   | _ :: _, [] => none
   | k :: kw, c :: s => if k = c then dropPrefix? kw s else none
 
-def monthNames3 : List (List Char) :=
-  ["jan".toList, "feb".toList, "mar".toList, "apr".toList, "may".toList, "jun".toList,
-   "jul".toList, "aug".toList, "sep".toList, "oct".toList, "nov".toList, "dec".toList]
+def monthTriples : List (Char × Char × Char) :=
+  [('j','a','n'), ('f','e','b'), ('m','a','r'), ('a','p','r'), ('m','a','y'), ('j','u','n'),
+   ('j','u','l'), ('a','u','g'), ('s','e','p'), ('o','c','t'), ('n','o','v'), ('d','e','c')]
+
+/-- `jan|feb|mar|apr|may|jun|jul|aug|sep|oct|nov|dec` -/
+def isMonth3 (a b c : Char) : Bool :=
+  monthTriples.any (fun m => a = m.1 && b = m.2.1 && c = m.2.2)
+
+def kwFrom : List Char := ['f', 'r', 'o', 'm']
+def kwWhere : List Char := ['w', 'h', 'e', 'r', 'e']
+def kwReport : List Char := ['r', 'e', 'p', 'o', 'r', 't']
+def kwAnd : List Char := ['a', 'n', 'd']
+def kwOr : List Char := ['o', 'r']
+def kwNot : List Char := ['n', 'o', 't']
+def kwNow : List Char := ['n', 'o', 'w']
+def kwToday : List Char := ['t', 'o', 'd', 'a', 'y']
+
+/-- one digit -/
+def dig1 : List Char → Option (List Char)
+  | a :: r => if isDigitC a then some r else none
+  | [] => none
 
 /-- exactly two digits -/
-def twoDigits : List Char → Option (List Char)
-  | a :: b :: r => if isDigitC a && isDigitC b then some r else none
-  | _ => none
+def twoDigits (s : List Char) : Option (List Char) := (dig1 s).bind dig1
+
+/-- a `-` -/
+def dash : List Char → Option (List Char)
+  | c :: r => if c = '-' then some r else none
+  | [] => none
+
+/-- a `:` -/
+def colon : List Char → Option (List Char)
+  | c :: r => if c = ':' then some r else none
+  | [] => none
 
 /-- `tt:tt` -/
-def hhmm (s : List Char) : Option (List Char) :=
-  match twoDigits s with
-  | some (':' :: r) => twoDigits r
-  | _ => none
+def hhmm (s : List Char) : Option (List Char) := ((twoDigits s).bind colon).bind twoDigits
 
 /-- `:tt` -/
-def colonTT : List Char → Option (List Char)
-  | ':' :: r => twoDigits r
-  | _ => none
+def colonTT (s : List Char) : Option (List Char) := (colon s).bind twoDigits
+
+def closeParen : List Char → Option (List Char)
+  | c :: r => if c = ')' then some r else none
+  | [] => none
 
 /-- the optional time `(?:\s*\(tt:tt(?::tt)?\)|\s+tt:tt(?::tt))?`: the rest after it -/
 def timeTail (s : List Char) : List Char :=
   let s1 := s.dropWhile isSpaceC
   let alt1 : Option (List Char) :=
     match s1 with
-    | '(' :: r =>
-      match hhmm r with
-      | some r1 =>
-        (match colonTT r1 with
-          | some (')' :: r2) => some r2
-          | _ => none).orElse (fun _ => match r1 with | ')' :: r2 => some r2 | _ => none)
-      | none => none
-    | _ => none
+    | c :: r =>
+      if c = '(' then
+        match hhmm r with
+        | some r1 => ((colonTT r1).bind closeParen).orElse (fun _ => closeParen r1)
+        | none => none
+      else none
+    | [] => none
   let alt2 : Option (List Char) :=
-    if s1.length < s.length then
-      match hhmm s1 with
-      | some r1 => colonTT r1
-      | none => none
-    else none
+    if s1.length < s.length then (hhmm s1).bind colonTT else none
   match alt1.orElse (fun _ => alt2) with
   | some r => r
   | none => s
 
-/-- month of the date patterns: `[0-9][0-9]?` (greedy) or a lower-case month name -/
+/-- a lower-case month name -/
+def month3 : List Char → Option (List Char)
+  | a :: t =>
+    if isLetterC a then
+      match t with
+      | b :: c :: r => if isMonth3 a b c then some r else none
+      | _ => none
+    else none
+  | [] => none
+
+/-- month of the date patterns in the regex's order: `[0-9][0-9]`, `[0-9]`, a month name -/
 def monthOpts (s : List Char) : List (List Char) :=
-  (match s with
-    | a :: b :: r => if isDigitC a && isDigitC b then [r] else []
-    | _ => []) ++
-  (match s with
-    | a :: r => if isDigitC a then [r] else []
-    | _ => []) ++
-  (match s with
-    | a :: b :: c :: r => if monthNames3.contains [a, b, c] then [r] else []
-    | _ => [])
+  (twoDigits s).toList ++ (dig1 s).toList ++ (month3 s).toList
+
+/-- the optional `-[0-9]{1,2}` (greedy) -/
+def dayPart (r1 : List Char) : List Char :=
+  match (dash r1).bind dig1 with
+  | none => r1
+  | some r' => match dig1 r' with
+    | some r'' => r''
+    | none => r'
 
 /-- YYYYMMDD: `[0-9]{4}-month(?:-[0-9]{1,2})?(?:time)?`; every part after the month is optional,
 so the first month alternative that matches decides -/
 def matchYMD (s : List Char) : Option (List Char) :=
-  match s with
-  | a :: b :: c :: d :: '-' :: r =>
-    if isDigitC a && isDigitC b && isDigitC c && isDigitC d then
-      match monthOpts r with
-      | r1 :: _ =>
-        let r2 := match r1 with
-          | '-' :: x :: y :: r' => if isDigitC x && isDigitC y then r' else if isDigitC x then y :: r' else r1
-          | '-' :: x :: r' => if isDigitC x then r' else r1
-          | _ => r1
-        some (timeTail r2)
-      | [] => none
-    else none
-  | _ => none
+  (((twoDigits s).bind twoDigits).bind dash).bind (fun r =>
+    match monthOpts r with
+    | r1 :: _ => some (timeTail (dayPart r1))
+    | [] => none)
 
 def firstSome {α β} (f : α → Option β) : List α → Option β
   | [] => none
@@ -330,22 +351,14 @@ def firstSome {α β} (f : α → Option β) : List α → Option β
 
 /-- DDMMYY: `(?:[0-9]{1,2}-)?month-(?:[0-9]{2})?[0-9]{2}(?:time)?` with the regex's backtracking
 order: day 2 digits / 1 digit / absent, month 2 digits / 1 digit / name, year 4 / 2 digits -/
+def yearPart (r : List Char) : Option (List Char) :=
+  (dash r).bind (fun r' => ((twoDigits r').bind twoDigits).orElse (fun _ => twoDigits r'))
+
+def dayOpts (s : List Char) : List (List Char) :=
+  ((twoDigits s).bind dash).toList ++ ((dig1 s).bind dash).toList ++ [s]
+
 def matchDMY (s : List Char) : Option (List Char) :=
-  let dayOpts : List (List Char) :=
-    (match s with
-      | a :: b :: '-' :: r => if isDigitC a && isDigitC b then [r] else []
-      | _ => []) ++
-    (match s with
-      | a :: '-' :: r => if isDigitC a then [r] else []
-      | _ => []) ++ [s]
-  let year (r : List Char) : Option (List Char) :=
-    match r with
-    | '-' :: r' =>
-      (match twoDigits r' with
-        | some r2 => twoDigits r2
-        | none => none).orElse (fun _ => twoDigits r')
-    | _ => none
-  match firstSome (fun d => firstSome year (monthOpts d)) dayOpts with
+  match firstSome (fun d => firstSome yearPart (monthOpts d)) (dayOpts s) with
   | some r => some (timeTail r)
   | none => none
 
@@ -370,29 +383,29 @@ def lexemeOf (s rest : List Char) : List Char := s.take (s.length - rest.length)
 /-- tokens that start with a letter, in class order: from, where, report, and, or, not,
 DDMMYY (month name first), now, QID, ID -/
 def lexWord (s : List Char) : Option (LTok × List Char) :=
-  match dropPrefix? "from".toList s with
+  match dropPrefix? kwFrom s with
   | some r => some (.fix .from_, r)
   | none =>
-  match dropPrefix? "where".toList s with
+  match dropPrefix? kwWhere s with
   | some r => some (.fix .where_, r)
   | none =>
-  match dropPrefix? "report".toList s with
+  match dropPrefix? kwReport s with
   | some r => some (.fix .report, r)
   | none =>
-  match dropPrefix? "and".toList s with
+  match dropPrefix? kwAnd s with
   | some r => some (.fix .and_, r)
   | none =>
-  match dropPrefix? "or".toList s with
+  match dropPrefix? kwOr s with
   | some r => some (.fix .or_, r)
   | none =>
-  match dropPrefix? "not".toList s with
+  match dropPrefix? kwNot s with
   | some r => some (.fix .not_, r)
   | none =>
   match matchDMY s with
   | some r => some (.dmy (lexemeOf s r), r)
   | none =>
-  match dropPrefix? "now".toList s with
-  | some r => some (.kwdate "now".toList, r)
+  match dropPrefix? kwNow s with
+  | some r => some (.kwdate kwNow, r)
   | none =>
   match idRun s with
   | none => none
@@ -404,6 +417,11 @@ def lexWord (s : List Char) : Option (LTok × List Char) :=
         | none => some (.id a, r))
     | _ => some (.id a, r)
 
+/-- `[+-]?` -/
+def stripSign : List Char → List Char
+  | c :: r => if c = '+' || c = '-' then r else c :: r
+  | [] => []
+
 /-- tokens that start with a digit or a sign: YYYYMMDD, DDMMYY, INT -/
 def lexNum (s : List Char) : Option (LTok × List Char) :=
   match matchYMD s with
@@ -412,13 +430,8 @@ def lexNum (s : List Char) : Option (LTok × List Char) :=
   match matchDMY s with
   | some r => some (.dmy (lexemeOf s r), r)
   | none =>
-    let body := match s with
-      | '+' :: r => r
-      | '-' :: r => r
-      | r => r
-    let ds := body.takeWhile isDigitC
-    if ds.isEmpty then none
-    else some (.int (lexemeOf s (body.dropWhile isDigitC)), body.dropWhile isDigitC)
+    if ((stripSign s).takeWhile isDigitC).isEmpty then none
+    else some (.int (lexemeOf s ((stripSign s).dropWhile isDigitC)), (stripSign s).dropWhile isDigitC)
 
 /-- the other token classes, in class order -/
 def lexSym : List Char → Option (LTok × List Char)
@@ -442,7 +455,7 @@ def lexSym : List Char → Option (LTok × List Char)
   | ')' :: r => some (.fix .rparen, r)
   | '"' :: r => (strBody '"' r).map (fun p => (.str p.1, p.2))
   | '\'' :: r => (strBody '\'' r).map (fun p => (.str p.1, p.2))
-  | ':' :: r => (dropPrefix? "today".toList r).map (fun r' => (.kwdate ":today".toList, r'))
+  | ':' :: r => (dropPrefix? kwToday r).map (fun r' => (.kwdate (':' :: kwToday), r'))
   | _ => none
 
 /-- the token at the front of `s` (no leading white space); `none` = the UNEXPECTED class -/
